@@ -2897,7 +2897,10 @@ class Parameters:
         watchers = self_._state_watchers
         self_._events  = []
         self_._state_watchers = []
-        self_._TRIGGER = True
+        # (the names being announced: what a callback assigns meanwhile is an
+        # ordinary assignment, delivered to changes-only watchers only if it
+        # is a change, and typed accordingly)
+        self_._TRIGGER = frozenset(params) | frozenset(triggers)
         # the current values are re-assigned to be announced: for a linked
         # parameter that is not an override of its reference
         linked = ()
@@ -2952,7 +2955,7 @@ class Parameters:
 
     def _call_watcher(self_, watcher, event):
         """Invoke the given watcher appropriately given an Event object."""
-        if self_._TRIGGER:
+        if self_._triggered(event):
             pass
         elif watcher.onlychanged and (not self_._changed(event)):
             return
@@ -2962,9 +2965,17 @@ class Parameters:
             if not any(watcher is w for w in self_._state_watchers):
                 self_._state_watchers.append(watcher)
         else:
-            event = self_._update_event_type(watcher, event, self_._TRIGGER)
+            event = self_._update_event_type(watcher, event, self_._triggered(event))
             with _batch_call_watchers(self_.self_or_cls, enable=watcher.queued, run=False):
                 self_._execute_watcher(watcher, (event,))
+
+    def _triggered(self_, event):
+        """
+        Whether the event is one that param.trigger is announcing right now
+        (and not an assignment a callback makes while trigger is running).
+        """
+        names = self_._TRIGGER
+        return bool(names) and (names is True or event.name in names)
 
     def _batch_call_watchers(self_):
         """
@@ -2981,7 +2992,7 @@ class Parameters:
             try:
                 for watcher in sorted(watchers, key=lambda w: w.precedence):
                     events = [self_._update_event_type(watcher, event_dict[(name, watcher.what)],
-                                                       self_._TRIGGER)
+                                                       self_._triggered(event_dict[(name, watcher.what)]))
                               for name in watcher.parameter_names
                               if (name, watcher.what) in event_dict]
                     with _batch_call_watchers(self_.self_or_cls, enable=watcher.queued, run=False):
